@@ -111,7 +111,7 @@ def pathShape {ν} [DecidableEq ν] (ops : NameOps ν) (c : Nat) : List (Hop ν)
 /-! ### conversion paths over all five containers
 
 A state is the container's shape together with the panel it holds and the panel's dimensions: the
-long table rearranges the variables in sorted-name order, the 2-D table forgets the variable
+long table rearranges the variables in sorted-name order (every name with its data), the 2-D table forgets the variable
 boundaries (reading it back gives ONE variable of length `c·t`). -/
 
 inductive Shape5 (ν : Type) where
@@ -158,7 +158,7 @@ def hop5 {ν α : Type} [DecidableEq ν] (ops : NameOps ν) (reserved : ν → B
     | .long i' t' d' names =>
       if i = i' ∧ tm = t' ∧ d = d' ∧ i ≠ tm then
         match cn with
-        | none => some { st with shape := .tri (.nested (defaultNames ops st.c) false),
+        | none => some { st with shape := .tri (.nested (sortVarsNames ops.lt names st.X) false),
                                  X := sortVarsPanel ops.lt names st.X }
         | some ns =>
           if ns.length = st.c ∧ ns.Nodup then
@@ -176,13 +176,13 @@ def hop5 {ν α : Type} [DecidableEq ν] (ops : NameOps ν) (reserved : ν → B
     | .tri .arr3 => some { st with shape := .tab2 none }
     | _ => none
   | .t2n cols k =>
-    match st.shape, k with
-    | .tab2 _, false =>
+    match st.shape with
+    | .tab2 _ =>
       match cols with
-      | none => some ⟨.tri (.nested [ops.zero] false), 1, st.c * st.t, panelOfRows (tab2Rows st.X)⟩
-      | some [name] => some ⟨.tri (.nested [name] false), 1, st.c * st.t, panelOfRows (tab2Rows st.X)⟩
+      | none => some ⟨.tri (.nested [ops.zero] k), 1, st.c * st.t, panelOfRows (tab2Rows st.X)⟩
+      | some [name] => some ⟨.tri (.nested [name] k), 1, st.c * st.t, panelOfRows (tab2Rows st.X)⟩
       | some _ => none
-    | _, _ => none
+    | _ => none
   | h => triHop ops h st
 
 def path5 {ν α : Type} [DecidableEq ν] (ops : NameOps ν) (reserved : ν → Bool) :
